@@ -1,23 +1,34 @@
 package props
 
-// C19 — JSON round trip of executable documents.
+// C19 — JSON round trip of PARSED executable documents.
 //
-// Correspondence (model = lean/GqlModel/Json, ops jsonenc / jsonrt / jsonstr / jsonsan):
+// Correspondence (model = lean/GqlModel/Json, ops jsonenc / jsonrt / jsonwf / jsondec / jsonstr / jsonsan):
 //   json-string-model-differs      renderString / sanitize vs json.Marshal / Unmarshal of a string
 //   json-model-encoding-differs    render (encodeQueryDoc d) vs json.Marshal(doc), byte for byte
 //                                  (comment-free documents; comments are not part of the tree type)
 //   json-model-roundtrip-differs   decodeQueryDoc (encodeQueryDoc d) vs Unmarshal(Marshal(doc))
-// Direct check of the property on the two Go trees (parsed document vs its round trip), unvalidated
-// and validated (validated documents carry the "Require validation" links):
-//   json-roundtrip:selection-kind-lost            a fragment spread / inline fragment came back as another kind (R19)
+//   json-model-decoder-differs     decodeQueryDoc j vs json.Unmarshal on hand-written and mutated JSON
+//                                  (selection objects with any combination of Alias / TypeCondition / Name keys,
+//                                  null / number / string / array items, unknown keys, wrong-typed values)
+//   json-wf-assumption-fails       for a source text that is valid UTF-8, sourceCleanB (every token value of the lexer
+//                                  model is well-formed UTF-8: hypothesis of C19_parsed_document_wellformed) or utf8CleanB
+//                                  of the parsed tree (hypothesis of C19_roundtrip) is false — the assumption is tested
+//                                  here, not proved
+// Direct check of the property on the two Go trees (parsed document vs its round trip), independent of the model:
+//   json-roundtrip:selection-kind-lost            a field / fragment spread / inline fragment came back as another
+//                                                 kind (kind-by-kind comparison in impl.DocLoss)
 //   json-roundtrip:<what>-lost                    what ∈ name alias arguments value directives type-condition selections
 //                                                 operations fragments operation-type variable-definitions type
 //   json-roundtrip:value-lost/invalid-utf8        the only loss is a string value whose bytes are not valid UTF-8
-//   json-roundtrip:marshal-fails/<class>[(valid-document)|(invalid-document)]   json.Marshal returned an error (class: cycle | other);
-//                                                 the suffix says what validation said about the (validated) document
+//   json-roundtrip:tree-differs                   the canonical trees (positions zeroed) differ although no clause lost
+//   json-roundtrip:marshal-fails/<class>          json.Marshal returned an error (class: cycle | other)
 //   json-roundtrip:unmarshal-fails                json.Unmarshal rejected what json.Marshal wrote
-//   json-roundtrip:validated-blowup               encoding a validated document did not finish (time / memory)
 //   json-roundtrip:crash                          panic / fatal error
+//   json-roundtrip:kind-detector-dead             self-test: with the top-level selections decoded the legacy way
+//                                                 (all through the Field decoder) the comparison must say selection-kind
+// VALIDATED documents are outside the domain of C19 (the property speaks of parsed documents); they are
+// still explored, but only counted (evidence "validated_informational"): marshal errors on linked fragment
+// cycles, encodings that blow up, clause losses.  Nothing about them is reported.
 
 import (
 	"fmt"
@@ -25,7 +36,6 @@ import (
 	"sort"
 	"strconv"
 	"strings"
-	"unicode/utf8"
 
 	"verifharness/internal/gen"
 	"verifharness/internal/impl"
@@ -43,10 +53,28 @@ type c19State struct {
 	findings                                            map[string]*c19Finding
 	docs, parsed, encEqual, encSkippedComments, rtEqual int
 	withSpread, withInline, lossFree                    int
-	vdocs, vValid, vInvalid, vLossFree                  int
-	vValidatorCrashes                                   int
-	maxJSON, maxRatio                                   int
+	wfTrue, wfFalse, srcTrue, srcFalse                  int
 	losses                                              map[string]int
+	// generator coverage
+	cov        map[string]int // documents having the feature
+	bi4, tri4  map[string]bool
+	depthHist  map[int]int
+	jsonSample []string // JSON texts of parsed documents (input of the mutator)
+	// decoder correspondence
+	decInputs, decEqual, decBothError, decUnmodelled, decOutside int
+	decKinds                                                     map[string]int
+	// validated documents (informational)
+	vdocs, vValid, vInvalid, vLossFree int
+	vValidatorCrashes                  int
+	maxJSON, maxRatio                  int
+	vInfo                              map[string]int
+	vExample                           map[string]string
+}
+
+func newC19State(c *Ctx) *c19State {
+	return &c19State{c: c, findings: map[string]*c19Finding{}, losses: map[string]int{}, cov: map[string]int{},
+		bi4: map[string]bool{}, tri4: map[string]bool{}, depthHist: map[int]int{}, decKinds: map[string]int{},
+		vInfo: map[string]int{}, vExample: map[string]string{}}
 }
 
 func (s *c19State) keep(kind, sig, what, in string, replay map[string]any) {
@@ -73,7 +101,44 @@ func marshalErrClass(msg string) string {
 	return "other"
 }
 
-// unvalidated documents: model correspondence + direct check
+// shape statistics of one document (impl.DocShape) into the coverage counters
+func (s *c19State) cover(shape string) {
+	for _, kv := range strings.Fields(shape) {
+		k, v, _ := strings.Cut(kv, "=")
+		switch k {
+		case "bi4", "tri4":
+			if v == "" {
+				continue
+			}
+			for _, w := range strings.Split(v, "+") {
+				if k == "bi4" {
+					s.bi4[w] = true
+				} else {
+					s.tri4[w] = true
+				}
+			}
+		default:
+			n, _ := strconv.Atoi(v)
+			switch k {
+			case "md":
+				s.depthHist[n]++
+			case "fd", "sd", "id":
+				if n >= 4 {
+					s.cov[k+">=4"]++
+				}
+				if n >= 6 {
+					s.cov[k+">=6"]++
+				}
+			default:
+				if n > 0 {
+					s.cov[k]++
+				}
+			}
+		}
+	}
+}
+
+// parsed (unvalidated) documents: model correspondence + direct check
 func (s *c19State) batch(texts []string) {
 	c := s.c
 	wreq := make([]string, len(texts))
@@ -95,13 +160,13 @@ func (s *c19State) batch(texts []string) {
 			continue
 		}
 		p := strings.Split(o, "|")
-		if len(p) != 4 {
+		if len(p) != 6 {
 			s.keep("runtime", "json-roundtrip:crash", fmt.Sprintf("document %q: malformed reply %s", texts[i], clip(o, 200)), texts[i], rep)
 			continue
 		}
 		s.parsed++
 		parts[i] = p
-		dreq = append(dreq, "jsonenc "+p[0], "jsonrt "+p[0])
+		dreq = append(dreq, "jsonenc "+p[0], "jsonrt "+p[0], "jsonwf "+p[0], "jsonsrcwf "+impl.HexW([]byte(texts[i])))
 		idx = append(idx, i)
 	}
 	dout := c.Driver.Map(dreq)
@@ -109,12 +174,16 @@ func (s *c19State) batch(texts []string) {
 		t, p := texts[i], parts[i]
 		rep := map[string]any{"op": "jsonrt", "input_hex": impl.HexW([]byte(t)), "input": t}
 		c.Ev.Case("u"+t, true)
-		menc, mrt := dout[2*j], dout[2*j+1]
+		menc, mrt, mwf, msrc := dout[4*j], dout[4*j+1], dout[4*j+2], dout[4*j+3]
 		if strings.Contains(p[0], "(S ") {
 			s.withSpread++
 		}
 		if strings.Contains(p[0], "(I ") {
 			s.withInline++
+		}
+		s.cover(p[4])
+		if len(s.jsonSample) < 4000 && len(p[1]) < 16000 && p[1] != "-" {
+			s.jsonSample = append(s.jsonSample, unhexS(p[1]))
 		}
 		// (i) encoding, byte for byte (the tree type has no comments)
 		if strings.Contains(t, "#") && menc != p[1] {
@@ -134,7 +203,35 @@ func (s *c19State) batch(texts []string) {
 			s.rtEqual++
 			c.Ev.Traces++
 		}
-		// (iii) the property itself
+		// (iii) the hypothesis of the round-trip theorem holds of what the parser builds from UTF-8 text
+		switch {
+		case mwf == "1":
+			s.wfTrue++
+		case mwf == "0":
+			s.wfFalse++
+			if validUTF8(t) {
+				s.keep("correspondence", "json-wf-assumption-fails", fmt.Sprintf("document %q is valid UTF-8 but the parsed tree holds a string that is not (utf8CleanB = false)", t), t, rep)
+			}
+		default:
+			s.keep("correspondence", "json-wf-assumption-fails", fmt.Sprintf("document %q: driver op jsonwf replied %s", t, clip(mwf, 100)), t, rep)
+		}
+		// … and of the lexer model's tokens (hypothesis of C19_parsed_document_wellformed); the theorem says
+		// sourceCleanB ⇒ utf8CleanB
+		switch {
+		case msrc == "1":
+			s.srcTrue++
+			if mwf == "0" {
+				s.keep("correspondence", "json-wf-assumption-fails", fmt.Sprintf("document %q: sourceCleanB holds but utf8CleanB of the parsed tree does not (contradicts C19_parsed_document_wellformed: the driver's tree is not the parser model's?)", t), t, rep)
+			}
+		case msrc == "0":
+			s.srcFalse++
+			if validUTF8(t) {
+				s.keep("correspondence", "json-wf-assumption-fails", fmt.Sprintf("document %q is valid UTF-8 but the lexer model produces a token whose value is not (sourceCleanB = false)", t), t, rep)
+			}
+		default:
+			s.keep("correspondence", "json-wf-assumption-fails", fmt.Sprintf("document %q: driver op jsonsrcwf replied %s", t, clip(msrc, 100)), t, rep)
+		}
+		// (iv) the property itself, on the two Go trees
 		if strings.HasPrefix(p[2], "E,") {
 			msg := unhexS(p[2][2:])
 			sig := "json-roundtrip:unmarshal-fails"
@@ -144,9 +241,14 @@ func (s *c19State) batch(texts []string) {
 			s.keep("spec", sig, fmt.Sprintf("document %q: %s", t, msg), t, rep)
 			continue
 		}
-		s.judgeLoss(p[3], t, rep, "")
+		s.judgeLoss(p[3], t, mwf == "0", rep)
+		if p[3] == "-" && p[5] != "same" {
+			s.keep("spec", "json-roundtrip:tree-differs", fmt.Sprintf("document %q: no clause of the property is lost, yet the canonical tree of the decoded document differs from the parsed one:\n decoded=%s", t, clip(p[2], 600)), t, rep)
+		}
 	}
 }
+
+func validUTF8(s string) bool { return strings.ToValidUTF8(s, "\uFFFD") == s }
 
 func withKeys(m map[string]any, kv ...any) map[string]any {
 	out := map[string]any{}
@@ -159,30 +261,300 @@ func withKeys(m map[string]any, kv ...any) map[string]any {
 	return out
 }
 
-func (s *c19State) judgeLoss(loss, text string, rep map[string]any, ctx string) {
+// illFormed: the parsed tree holds a string that is not well-formed UTF-8 (utf8CleanB = false)
+func (s *c19State) judgeLoss(loss, text string, illFormed bool, rep map[string]any) {
 	if loss == "-" {
-		if ctx == "" {
-			s.lossFree++
-		} else {
-			s.vLossFree++
-		}
+		s.lossFree++
 		return
 	}
 	for _, l := range strings.Split(loss, ",") {
-		s.losses[ctx+l]++
+		s.losses[l]++
 		sig := "json-roundtrip:" + l + "-lost"
-		if l == "value" && !utf8.ValidString(text) {
+		if l == "value" && illFormed && !validUTF8(text) {
 			sig += "/invalid-utf8"
 		}
-		what := fmt.Sprintf("%sdocument %q: after json.Marshal + json.Unmarshal the %s differ from the parsed document", ctx, text, l)
+		what := fmt.Sprintf("document %q: after json.Marshal + json.Unmarshal the %s differ from the parsed document", text, l)
 		if l == "selection-kind" {
-			what = fmt.Sprintf("%sdocument %q: after json.Marshal + json.Unmarshal a fragment spread or inline fragment is no longer one (UnmarshalSelectionSet tries the Field decoder first and it accepts any object)", ctx, text)
+			what = fmt.Sprintf("document %q: after json.Marshal + json.Unmarshal a selection has changed its kind (field / fragment spread / inline fragment)", text)
 		}
 		s.keep("spec", sig, what, text, rep)
 	}
 }
 
-// validated documents: direct check only
+// self-test of the kind comparison: decode the top-level selections the legacy way
+func (s *c19State) detectorAlive() {
+	wit := []string{`{ a ...F ... on T { b } }`, `{ ...F }`, `{ ... { a } }`, `fragment G on T { ... on T @d { a } }`}
+	req := make([]string, len(wit))
+	for i, t := range wit {
+		req[i] = "jsonrtlegacytop " + impl.HexW([]byte(t))
+	}
+	alive := 0
+	for i, o := range s.c.Worker.Map(req) {
+		has := false
+		for _, l := range strings.Split(o, ",") {
+			has = has || l == "selection-kind"
+		}
+		if has {
+			alive++
+		} else {
+			s.c.Report("runtime", "json-roundtrip:kind-detector-dead", fmt.Sprintf("document %q with its top-level selections decoded through the Field decoder: the comparison says %q, not selection-kind", wit[i], o),
+				map[string]any{"op": "jsonrtlegacytop", "input": wit[i], "input_hex": impl.HexW([]byte(wit[i]))})
+		}
+	}
+	s.c.Ev.Count("kind_detector_selftests_passed", alive)
+}
+
+/* ---------------- decoder correspondence on hand-written and mutated JSON ---------------- */
+
+type c19JSON struct{ origin, text string }
+
+func selDoc(items string) string {
+	return `{"Operations":[{"Operation":"query","Name":"","SelectionSet":[` + items + `]}],"Fragments":null}`
+}
+
+var c19HandJSON = []string{
+	// the document level
+	`null`, `{}`, `[]`, `5`, `"s"`, `true`,
+	`{"Operations":null,"Fragments":null,"Comment":null}`,
+	`{"Operations":[],"Fragments":[]}`,
+	`{"Operations":{},"Fragments":[]}`,
+	`{"Operations":[5]}`, `{"Operations":["s"]}`, `{"Operations":[[]]}`, `{"Operations":[{}]}`, `{"Fragments":[{}]}`, `{"Fragments":[7]}`,
+	`{"Operations":[{"Operation":5}]}`, `{"Operations":[{"Operation":"mutation","Name":"M","Zzz":1}]}`,
+	`{"Operations":[{"SelectionSet":null}]}`, `{"Operations":[{"SelectionSet":[]}]}`, `{"Operations":[{"SelectionSet":{}}]}`,
+	`{"Operations":[{"SelectionSet":5}]}`, `{"Operations":[{"SelectionSet":"s"}]}`, `{"Operations":[{"Name":"Q"}]}`,
+	`{"Fragments":[{"Name":"F","TypeCondition":"T","SelectionSet":[{"Alias":"a","Name":"a"}],"VariableDefinition":null}]}`,
+	`{"Fragments":[{"Name":"F","TypeCondition":7}]}`,
+	`{"Fragments":[{"Name":"F","VariableDefinition":[{"Variable":"v","Type":{"NamedType":"Int","Elem":null,"NonNull":true},"DefaultValue":{"Raw":"1","Children":null,"Kind":1}}]}]}`,
+	`{"Operations":[{"VariableDefinitions":[{"Variable":"v","Type":{"NamedType":"","Elem":{"NamedType":"Int","Elem":null,"NonNull":false},"NonNull":true},"Used":true}]}]}`,
+	`{"Operations":[{"VariableDefinitions":[{"Variable":"v","Type":{"NamedType":"","Elem":{"NamedType":"Int"},"NonNull":5}}]}]}`,
+	`{"Operations":[{"VariableDefinitions":[{"Variable":"v","Type":{}}]}]}`,
+	`{"Operations":[{"VariableDefinitions":[{"Variable":"v","Type":{"NamedType":"X","Elem":{"NamedType":"Y"}}}]}]}`,
+	`{"Operations":[{"VariableDefinitions":[{"Variable":"v","Type":{"Elem":5}}]}]}`,
+	`{"Operations":[{"VariableDefinitions":{}}]}`,
+	`{"Operations":[{"Directives":[{"Name":"d","Arguments":null,"Location":"QUERY"}]}]}`,
+	`{"Operations":[{"Directives":[{"Name":"d","Location":5}]}]}`,
+	`{"Operations":[{"Directives":[5]}]}`, `{"Operations":[{"Directives":"s"}]}`,
+	`{"Comment":5}`, `{"Comment":{"List":null}}`, `{"Position":5}`, `{"Operations":[{"Position":5}]}`, `{"Operations":[{"Comment":5}]}`, `{"Fragments":[{"Definition":5}]}`, `{"Fragments":[{"Position":"s"}]}`,
+	`{"Fragments":[{"Comment":5,"Name":"F"}]}`, `{"Operations":[{"VariableDefinitions":[{"Variable":"v","Type":{"NamedType":"Int"},"Comment":5}]}]}`,
+	`{"Operations":[{"VariableDefinitions":[{"Variable":"v","Type":{"NamedType":"Int","Position":5},"Definition":"s"}]}]}`,
+	`{"Operations":[{"VariableDefinitions":[{"Variable":"v","Type":{"NamedType":"Int","Position":5}}]}]}`,
+}
+
+// items of a SelectionSet array (wrapped by selDoc)
+var c19HandItems = []string{
+	``,
+	// the three kinds as json.Marshal writes them
+	`{"Alias":"a","Name":"a","Arguments":null,"Directives":null,"SelectionSet":null,"Comment":null,"Definition":null,"ObjectDefinition":null}`,
+	`{"Name":"F","Directives":null,"ObjectDefinition":null,"Definition":null,"Comment":null}`,
+	`{"TypeCondition":"T","Directives":null,"SelectionSet":null,"ObjectDefinition":null,"Comment":null}`,
+	`{"TypeCondition":"","Directives":null,"SelectionSet":[{"Alias":"x","Name":"y"}],"ObjectDefinition":null,"Comment":null}`,
+	// key combinations
+	`{"Alias":"a","TypeCondition":"T"}`,
+	`{"TypeCondition":"T","Alias":"a"}`,
+	`{"Alias":"a","TypeCondition":"T","Name":"n","SelectionSet":[{"Name":"F"},{"TypeCondition":"U"}]}`,
+	`{"Alias":null}`, `{"TypeCondition":null}`, `{"Alias":null,"TypeCondition":null}`, `{"Name":null}`,
+	`{"Alias":5}`, `{"Alias":"a","Name":5}`, `{"TypeCondition":5}`, `{"TypeCondition":"T","Directives":5}`, `{"Name":5}`, `{"Name":"F","Directives":5}`,
+	`{"Alias":[]}`, `{"Alias":{}}`, `{"TypeCondition":[]}`, `{"TypeCondition":true}`, `{"Alias":true}`,
+	`{}`, `{"Zzz":1}`, `{"Zzz":{"Alias":"a"}}`, `{"alias":"a"}`, `{"ALIAS":"a","Name":"n"}`, `{"typeCondition":"T"}`, `{"alias":"a","TypeCondition":"T"}`,
+	`{"":"x"}`, `{"Alias ":"a"}`, `{"SelectionSet":[{"Alias":"a"}]}`, `{"Name":"F","SelectionSet":[{"Alias":"a"}]}`, `{"Name":"F","SelectionSet":5}`,
+	`{"Name":"F","Arguments":5}`, `{"Name":"F","Alias":"a","Arguments":5}`, `{"TypeCondition":"T","Arguments":5,"Name":7,"Alias2":1}`,
+	// items that are not objects
+	`null`, `null,null`, `5`, `-1`, `0`, `"s"`, `""`, `true`, `false`, `[]`, `[{"Alias":"a"}]`, `[null]`,
+	`null,5,"s",true,[],{},{"Alias":"a"},{"TypeCondition":"T"},{"Name":"F"}`,
+	`{"Name":"F"},null,{"Alias":"a"},7,{"TypeCondition":"T"},"x",{"Alias":1},{"Name":"G"}`,
+	// nesting: every kind inside every container, junk inside
+	`{"Alias":"a","Name":"a","SelectionSet":[{"Name":"F"},{"TypeCondition":"T","SelectionSet":[{"Alias":"b","Name":"b","SelectionSet":[{"Name":"G"},{"TypeCondition":""},null,3]}]}]}`,
+	`{"TypeCondition":"T","SelectionSet":[{"TypeCondition":"U","SelectionSet":[{"TypeCondition":"V","SelectionSet":[{"TypeCondition":"W","SelectionSet":[{"Name":"F"},{"Alias":"a","Name":"a"},{"TypeCondition":"X"}]}]}]}]}`,
+	`{"Alias":"a","SelectionSet":[{"Alias":"b","SelectionSet":[{"Alias":"c","SelectionSet":[{"Alias":"d","SelectionSet":[{"Alias":"e","SelectionSet":[{"Name":"F"},{"TypeCondition":"T"},{"Alias":"f"}]}]}]}]}]}`,
+	`{"Alias":"a","SelectionSet":null}`, `{"Alias":"a","SelectionSet":[]}`, `{"Alias":"a"}`, `{"Alias":"a","SelectionSet":{}}`, `{"Alias":"a","SelectionSet":5}`, `{"Alias":"a","SelectionSet":"s"}`,
+	`{"TypeCondition":"T","SelectionSet":null}`, `{"TypeCondition":"T","SelectionSet":[]}`, `{"TypeCondition":"T","SelectionSet":{}}`, `{"TypeCondition":"T","SelectionSet":[5]}`,
+	`{"Alias":"a","SelectionSet":[{"Alias":5}]}`, `{"Alias":"a","SelectionSet":[{"Alias":"b","SelectionSet":7}]}`,
+	// arguments, values, directives: right and wrong types
+	`{"Alias":"a","Name":"a","Arguments":[{"Name":"x","Value":{"Raw":"1","Children":null,"Kind":1,"Comment":null,"Definition":null,"VariableDefinition":null,"ExpectedType":null},"Comment":null}]}`,
+	`{"Alias":"a","Arguments":[{"Name":"x","Value":{"Raw":"","Children":[{"Name":"k","Value":{"Raw":"v","Kind":0},"Comment":null},{"Name":"","Value":{"Raw":"s","Kind":3}}],"Kind":9}}]}`,
+	`{"Alias":"a","Arguments":[{"Name":"x","Value":{"Raw":"","Children":[{"Name":"","Value":{"Raw":"1","Kind":1}},{"Name":"","Value":{"Raw":"","Children":[],"Kind":8}}],"Kind":8}}]}`,
+	`{"Alias":"a","Arguments":[]}`, `{"Alias":"a","Arguments":{}}`, `{"Alias":"a","Arguments":"s"}`, `{"Alias":"a","Arguments":[5]}`, `{"Alias":"a","Arguments":["s"]}`, `{"Alias":"a","Arguments":[[]]}`,
+	`{"Alias":"a","Arguments":[{"Name":5,"Value":{"Raw":"1","Kind":1}}]}`, `{"Alias":"a","Arguments":[{"Name":"x","Value":5}]}`, `{"Alias":"a","Arguments":[{"Name":"x","Value":"s"}]}`, `{"Alias":"a","Arguments":[{"Name":"x","Value":[]}]}`,
+	`{"Alias":"a","Arguments":[{"Name":"x","Value":{"Raw":5,"Kind":1}}]}`, `{"Alias":"a","Arguments":[{"Name":"x","Value":{"Raw":"1","Kind":"1"}}]}`, `{"Alias":"a","Arguments":[{"Name":"x","Value":{"Raw":"1","Kind":true}}]}`,
+	`{"Alias":"a","Arguments":[{"Name":"x","Value":{"Raw":"1","Kind":null}}]}`, `{"Alias":"a","Arguments":[{"Name":"x","Value":{}}]}`, `{"Alias":"a","Arguments":[{"Name":"x","Value":{"Zzz":[1,2,{"a":null}]}}]}`,
+	`{"Alias":"a","Arguments":[{"Name":"x","Value":{"Raw":"1","Kind":1,"Children":{}}}]}`, `{"Alias":"a","Arguments":[{"Name":"x","Value":{"Raw":"1","Kind":1,"Children":[5]}}]}`, `{"Alias":"a","Arguments":[{"Name":"x","Value":{"Raw":"1","Kind":1,"Children":"s"}}]}`,
+	`{"Alias":"a","Directives":[{"Name":"d","Arguments":[{"Name":"x","Value":{"Raw":"v","Kind":0}}],"ParentDefinition":null,"Definition":null,"Location":""}]}`,
+	`{"Alias":"a","Directives":[{"Name":"d","Arguments":5}]}`, `{"Alias":"a","Directives":[{"Name":[]}]}`, `{"Alias":"a","Directives":{}}`, `{"Alias":"a","Directives":[]}`, `{"Alias":"a","Directives":[{}]}`, `{"Alias":"a","Directives":[5]}`,
+	`{"Name":"F","Directives":[{"Name":"d","Arguments":null}]}`, `{"Name":"F","Directives":[{"Name":5}]}`, `{"Name":"F","Directives":[7]}`, `{"Name":"F","Directives":{}}`, `{"Name":"F","Directives":[]}`,
+	`{"TypeCondition":"T","Directives":[{"Name":"d"}],"SelectionSet":[{"Alias":"a","Name":"a"}]}`, `{"TypeCondition":"T","Directives":[{"Name":5}]}`, `{"TypeCondition":"T","Directives":[[]]}`,
+	// strings
+	// links, Comment, Position: null, wrong type (an object would be decoded: outside the model)
+	`{"Alias":"a","Definition":null,"ObjectDefinition":null,"Position":null,"Comment":null}`, `{"Alias":"a","Definition":5}`, `{"Alias":"a","ObjectDefinition":"s"}`, `{"Alias":"a","Position":5}`, `{"Alias":"a","Position":[]}`,
+	`{"Alias":"a","Comment":5}`, `{"Alias":"a","Comment":{"List":[{"Value":"#c"}]}}`, `{"Alias":"a","Position":{"Start":1}}`, `{"Alias":"a","Definition":{}}`,
+	`{"Name":"F","Definition":5}`, `{"Name":"F","ObjectDefinition":[]}`, `{"Name":"F","Comment":5}`, `{"Name":"F","Comment":null,"Position":5}`, `{"Name":"F","Definition":{"Name":"F"}}`,
+	`{"TypeCondition":"T","ObjectDefinition":true}`, `{"TypeCondition":"T","Position":"s"}`, `{"TypeCondition":"T","Comment":5,"Definition":5}`,
+	`{"Alias":"a","Arguments":[{"Name":"x","Value":{"Raw":"1","Kind":1,"VariableDefinition":12}}]}`, `{"Alias":"a","Arguments":[{"Name":"x","Value":{"Raw":"1","Kind":1,"ExpectedType":"s"}}]}`,
+	`{"Alias":"a","Arguments":[{"Name":"x","Value":{"Raw":"1","Kind":1},"Comment":5}]}`, `{"Alias":"a","Directives":[{"Name":"d","ParentDefinition":5}]}`, `{"Alias":"a","Directives":[{"Name":"d","Definition":[]}]}`,
+	`{"Alias":"a","Arguments":[{"Name":"x","Value":{"Kind":9,"Children":[{"Name":"k","Value":{"Raw":"1","Kind":1},"Comment":false}]}}]}`,
+	`{"Alias":"\u00e9\ud83d\ude00","Name":"<>&\u2028\"\\\/\b\f\n\r\t"}`, `{"Name":"\ud800"}`, `{"TypeCondition":"\udc00x"}`,
+	// outside the tree type (the model answers `unmodelled`, counted and not compared)
+	`{"Alias":"a","Arguments":[null]}`, `{"Alias":"a","Arguments":[{"Name":"x"}]}`, `{"Alias":"a","Arguments":[{"Name":"x","Value":null}]}`, `{"Alias":"a","Arguments":[{"Name":"x","Value":{"Raw":"1","Kind":12}}]}`,
+	`{"Alias":"a","Directives":[null]}`, `{"Alias":"a","Arguments":[{"Name":"x","Value":{"Kind":8,"Children":[null]}}]}`, `{"Alias":"a","Arguments":[{"Name":"x","Value":{"Kind":-1}}]}`,
+	// numbers that are not integer literals (outside the model's number type, counted and not compared)
+	`1.5`, `{"Alias":"a","Arguments":[{"Name":"x","Value":{"Raw":"1","Kind":1.0}}]}`, `1e2`,
+}
+
+var c19SetKeys = []string{"Alias", "TypeCondition", "Name", "SelectionSet", "Directives", "Arguments", "Value", "Kind", "Raw", "Children",
+	"Operation", "Type", "NamedType", "Elem", "NonNull", "Variable", "DefaultValue", "Used", "Location", "VariableDefinitions", "Zzz", "alias", "",
+	// pointers to structs the tree does not hold: null or a type error in the model, an object is outside it
+	"Definition", "ObjectDefinition", "ParentDefinition", "ExpectedType", "Comment", "Position", "VariableDefinition"}
+
+var c19Junk = []string{`null`, `5`, `-1`, `3`, `12`, `"s"`, `""`, `true`, `false`, `[]`, `{}`, `[null]`, `[5,"s"]`, `{"Alias":"q"}`, `{"TypeCondition":"T"}`, `{"Name":"n"}`,
+	`[{"Name":"n"},{"TypeCondition":"T"},{"Alias":"q","Name":"q"}]`, `{"Alias":"a","TypeCondition":"T","Name":"n","SelectionSet":[{"Name":"F"}]}`, `[[]]`, `"query"`, `{"NamedType":"Int","Elem":null,"NonNull":true}`,
+	`{"Raw":"1","Children":null,"Kind":1}`}
+
+func collectNodes(n *impl.JNode, acc *[]*impl.JNode) {
+	if n.K == 'a' || n.K == 'o' {
+		*acc = append(*acc, n)
+	}
+	for _, c := range n.A {
+		collectNodes(c, acc)
+	}
+}
+
+func junk(r *rng.R) *impl.JNode {
+	n, _ := impl.ParseJSONTree([]byte(rng.Pick(r, c19Junk)))
+	return n
+}
+
+// one random mutation that keeps object keys unique; returns its name
+func mutateJSON(r *rng.R, root *impl.JNode) string {
+	var nodes []*impl.JNode
+	collectNodes(root, &nodes)
+	if len(nodes) == 0 {
+		return "none"
+	}
+	n := rng.Pick(r, nodes)
+	if n.K == 'a' {
+		switch k := r.Intn(6); {
+		case k == 0 || len(n.A) == 0:
+			at := r.Intn(len(n.A) + 1)
+			n.A = append(n.A[:at:at], append([]*impl.JNode{junk(r)}, n.A[at:]...)...)
+			return "array-insert"
+		case k == 1:
+			at := r.Intn(len(n.A))
+			n.A = append(n.A[:at:at], n.A[at+1:]...)
+			return "array-delete"
+		case k == 2:
+			at := r.Intn(len(n.A))
+			n.A = append(n.A[:at+1:at+1], n.A[at:]...)
+			return "array-duplicate"
+		case k == 3:
+			n.A[r.Intn(len(n.A))] = junk(r)
+			return "array-replace"
+		case k == 4:
+			i, j := r.Intn(len(n.A)), r.Intn(len(n.A))
+			n.A[i], n.A[j] = n.A[j], n.A[i]
+			return "array-swap"
+		default:
+			for i, j := 0, len(n.A)-1; i < j; i, j = i+1, j-1 {
+				n.A[i], n.A[j] = n.A[j], n.A[i]
+			}
+			return "array-reverse"
+		}
+	}
+	free := make([]int, len(n.Key))
+	for i := range n.Key {
+		free[i] = i
+	}
+	switch k := r.Intn(5); {
+	case k == 0 && len(free) > 0:
+		at := rng.Pick(r, free)
+		n.A = append(n.A[:at:at], n.A[at+1:]...)
+		n.Key = append(n.Key[:at:at], n.Key[at+1:]...)
+		return "object-delete-key"
+	case k == 1 && len(free) > 0:
+		n.A[rng.Pick(r, free)] = junk(r)
+		return "object-replace-value"
+	case k == 2 && len(free) > 1:
+		i, j := rng.Pick(r, free), rng.Pick(r, free)
+		n.A[i], n.A[j] = n.A[j], n.A[i]
+		n.Key[i], n.Key[j] = n.Key[j], n.Key[i]
+		return "object-swap-keys"
+	default:
+		key := rng.Pick(r, c19SetKeys)
+		for i, x := range n.Key {
+			if x == key {
+				n.A[i] = junk(r)
+				return "object-set-key"
+			}
+		}
+		at := r.Intn(len(n.A) + 1)
+		n.A = append(n.A[:at:at], append([]*impl.JNode{junk(r)}, n.A[at:]...)...)
+		n.Key = append(n.Key[:at:at], append([]string{key}, n.Key[at:]...)...)
+		return "object-add-key"
+	}
+}
+
+func (s *c19State) decodeBatch(ins []c19JSON) {
+	c := s.c
+	var dreq, wreq []string
+	var idx []int
+	for i, in := range ins {
+		s.decInputs++
+		s.decKinds[in.origin]++
+		tree, err := impl.ParseJSONTree([]byte(in.text))
+		if err != nil {
+			s.decOutside++
+			continue
+		}
+		var sb strings.Builder
+		if !tree.Sexp(&sb) {
+			s.decOutside++
+			continue
+		}
+		dreq = append(dreq, "jsondec "+sb.String())
+		wreq = append(wreq, "jsondec "+impl.HexW([]byte(in.text)))
+		idx = append(idx, i)
+	}
+	dout := c.Driver.Map(dreq)
+	wout := c.Worker.Map(wreq)
+	for j, i := range idx {
+		in := ins[i]
+		m, g := dout[j], wout[j]
+		c.Ev.Case("j"+in.text, true)
+		rep := map[string]any{"op": "jsondec", "input_hex": impl.HexW([]byte(in.text)), "input": in.text}
+		switch {
+		case m == "E,unmodelled" || g == "OUTSIDE":
+			// the decoded document is not a value of the model's tree type (a nil pointer inside a list, a
+			// missing Value / Type, a Kind outside 0..9): said by the model, or seen on the Go result
+			s.decUnmodelled++
+		case crashed(g):
+			s.keep("runtime", "json-roundtrip:crash", fmt.Sprintf("json.Unmarshal of %s into a QueryDocument: %s", clip(in.text, 300), clip(g, 300)), in.text, rep)
+		case strings.HasPrefix(m, "E,") && strings.HasPrefix(g, "E,"):
+			s.decBothError++
+			c.Ev.Traces++
+		case m == g:
+			s.decEqual++
+			c.Ev.Traces++
+		default:
+			gs := g
+			if strings.HasPrefix(g, "E,") {
+				gs = "error: " + unhexS(g[2:])
+			}
+			if os.Getenv("VERIF_C19_DEBUG") != "" && len(in.text) < 700 {
+				fmt.Fprintf(os.Stderr, "DECDIFF %s\n  go   =%s\n  model=%s\n", in.text, clip(gs, 400), clip(m, 400))
+			}
+			s.keep("correspondence", "json-model-decoder-differs", fmt.Sprintf("JSON (%s) %s:\n go   =%s\n model=%s", in.origin, clip(in.text, 600), clip(gs, 600), clip(m, 600)), in.text,
+				withKeys(rep, "go_observation", gs, "model_observation", m))
+		}
+	}
+}
+
+/* ---------------- validated documents: informational only ---------------- */
+
+func (s *c19State) info(class, example string) {
+	s.vInfo[class]++
+	if old, ok := s.vExample[class]; !ok || len(example) < len(old) {
+		s.vExample[class] = example
+	}
+}
+
 func (s *c19State) batchValidated(pairs [][2]string) {
 	c := s.c
 	wreq := make([]string, len(pairs))
@@ -191,12 +563,10 @@ func (s *c19State) batchValidated(pairs [][2]string) {
 	}
 	for i, o := range c.Worker.Map(wreq) {
 		t := pairs[i][1]
-		rep := map[string]any{"op": "jsonrtv", "schema": pairs[i][0], "input": t, "schema_hex": impl.HexW([]byte(pairs[i][0])), "input_hex": impl.HexW([]byte(t))}
 		if o == "PARSEERR" || o == "LOADERR" || o == "VALPANIC" {
 			continue
 		}
 		s.vdocs++
-		c.Ev.Case("v"+pairs[i][0]+"\x00"+t, true)
 		if crashed(o) {
 			// is it the validator that crashes / hangs (C02), before any JSON is involved?
 			if v := c.Worker.Map([]string{"jsonrtvv " + impl.HexW([]byte(pairs[i][0])) + " " + impl.HexW([]byte(t))})[0]; crashed(v) {
@@ -204,16 +574,16 @@ func (s *c19State) batchValidated(pairs [][2]string) {
 				s.vdocs--
 				continue
 			}
-			sig := "json-roundtrip:crash"
+			class := "crash"
 			if strings.HasPrefix(o, "TIMEOUT") || strings.Contains(o, "out of memory") || strings.Contains(o, "killed") {
-				sig = "json-roundtrip:validated-blowup"
+				class = "encoding-blowup (time / memory)"
 			}
-			s.keep("runtime", sig, fmt.Sprintf("validated document %q: %s", t, clip(o, 300)), t, rep)
+			s.info(class, t)
 			continue
 		}
 		p := strings.Split(o, "|")
 		if len(p) != 4 {
-			s.keep("runtime", "json-roundtrip:crash", fmt.Sprintf("validated document %q: malformed reply %s", t, clip(o, 200)), t, rep)
+			s.info("malformed-reply", t)
 			continue
 		}
 		if p[0] == "valid" {
@@ -231,33 +601,183 @@ func (s *c19State) batchValidated(pairs [][2]string) {
 		}
 		if strings.HasPrefix(p[2], "E,") {
 			msg := unhexS(p[2][2:])
-			sig := "json-roundtrip:unmarshal-fails"
+			class := "unmarshal-fails"
 			if p[1] == "0" {
-				sig = "json-roundtrip:marshal-fails/" + marshalErrClass(msg) + "(" + p[0] + "-document)"
+				class = "marshal-fails/" + marshalErrClass(msg) + "(" + p[0] + "-document)"
 			}
-			s.keep("spec", sig, fmt.Sprintf("validated (%s) document %q: %s", p[0], t, msg), t, rep)
+			s.info(class, t)
 			continue
 		}
-		s.judgeLoss(p[3], t, rep, "validated ")
+		if p[3] == "-" {
+			s.vLossFree++
+		} else {
+			for _, l := range strings.Split(p[3], ",") {
+				s.info(l+"-lost", t)
+			}
+		}
 	}
 }
 
+/* ---------------- inputs ---------------- */
+
 var c19Minimal = []string{
-	`{ a ...F ... on T { b } }`, // R19
+	`{ a ...F ... on T { b } }`, // the witness of the repaired defect
 	`{ a }`,
 	`{ ...F }`,
 	`{ ... { a } }`,
 	`{ ... on T { a } }`,
 	`{ ... @d { a } }`,
 	`{ ...F @d(x: 1) }`,
+	`{ ... on T @d(x: [1, {k: $v}]) @e { a } }`,
+	`{ a: a b: a a: b }`,
 	`{ a { b { ...F ... on T { c ...G } } } }`,
+	`{ a { ... { ... on T { b { ...F ... { c } d: c ... on U @x { ...G @y } } } } } }`,
 	`query Q($v: [Int!]! = [1, 2] @d) @e { x: a(b: {c: [$v, "s", 1.5, true, null, E]}) @f }`,
 	`fragment F($x: Int = 3) on T @d { a ...G }`,
 	`mutation { a } subscription S { b } query { c }`,
 	`{ a(s: "<>&\u2028\u2029\u0000\u0008\u000c\n\r\t\"\\/\u007f é 😀") }`,
+	`{ a(s: "\uD800 \uDFFF \uD83D\uDE00") }`,
 	"{ a(s: \"\xff\xfe\") }",
 	"{ a(s: \"\"\"block\n  string \xc3\"\"\") }",
 	"# comment\n{ a # c\n }",
+	"# \xff comment only\n{ a }",
+}
+
+// every sequence of three sibling kinds, at depth 5, under every chain of four containers (field / inline
+// fragment with / inline fragment without type condition): 27 * 81 documents, plus the same with directives
+func c19KindMatrix() []string {
+	sel := func(k int, i int, dirs bool) string {
+		d := ""
+		if dirs {
+			d = fmt.Sprintf(" @d%d(x: %d)", i, i)
+		}
+		switch k {
+		case 0:
+			if i%2 == 0 {
+				return fmt.Sprintf("f%d%s", i, d)
+			}
+			return fmt.Sprintf("al%d: f%d%s", i, i, d)
+		case 1:
+			return fmt.Sprintf("...S%d%s", i, d)
+		default:
+			if i%2 == 0 {
+				return fmt.Sprintf("... on T%d%s { leaf }", i, d)
+			}
+			return fmt.Sprintf("...%s { leaf }", d)
+		}
+	}
+	open := []string{"c {", "... on C {", "... {"}
+	var out []string
+	for chain := 0; chain < 81; chain++ {
+		for tri := 0; tri < 27; tri++ {
+			var sb strings.Builder
+			sb.WriteString("{ ")
+			x := chain
+			for l := 0; l < 4; l++ {
+				sb.WriteString(open[x%3] + " ")
+				x /= 3
+			}
+			y := tri
+			for i := 0; i < 3; i++ {
+				sb.WriteString(sel(y%3, i+chain, (chain+tri)%2 == 1) + " ")
+				y /= 3
+			}
+			sb.WriteString("} } } } }")
+			out = append(out, sb.String())
+		}
+	}
+	return out
+}
+
+// a random selection tree with all three kinds at every level down to the given depth
+type c19Tree struct {
+	r  *rng.R
+	sb strings.Builder
+}
+
+func (g *c19Tree) name() string { return rng.Pick(g.r, []string{"a", "b", "c", "id", "x1", "_y", "on", "fragment", "query", "true", "null", "T", "Node"}) }
+
+func (g *c19Tree) dirs() {
+	for n := g.r.Intn(4) - 1; n > 0; n-- {
+		g.sb.WriteString(" @" + g.name())
+		if g.r.Chance(1, 2) {
+			g.sb.WriteString(`(` + g.name() + `: ` + rng.Pick(g.r, []string{"1", "-2.5e3", `"s"`, `"""b"""`, "true", "null", "E", "$v", "[1, [2]]", `{k: {l: [$w, "é"]}}`, "[]", "{}"}) + `)`)
+		}
+	}
+}
+
+func (g *c19Tree) selSet(depth int) {
+	g.sb.WriteString(" {")
+	n := 1 + g.r.Intn(4)
+	for i := 0; i < n; i++ {
+		g.sb.WriteByte(' ')
+		k := g.r.Intn(3)
+		if depth <= 1 && k == 2 && g.r.Chance(1, 2) {
+			k = g.r.Intn(2)
+		}
+		switch k {
+		case 0:
+			nm := g.name()
+			switch g.r.Intn(3) {
+			case 0:
+				g.sb.WriteString(nm + ": " + nm) // alias written out, equal to the name
+			case 1:
+				g.sb.WriteString(g.name() + "2: " + nm)
+			default:
+				g.sb.WriteString(nm)
+			}
+			if g.r.Chance(1, 4) {
+				g.sb.WriteString(`(` + g.name() + `: ` + rng.Pick(g.r, []string{"1", `"s"`, "$v", "[E, null]", `{a: 1, b: {c: []}}`}) + `)`)
+			}
+			g.dirs()
+			if depth > 1 && (g.r.Chance(2, 3) || i == 0) {
+				g.selSet(depth - 1)
+			}
+		case 1:
+			nm := g.name()
+			if nm == "on" {
+				nm = "On"
+			}
+			g.sb.WriteString("..." + nm)
+			g.dirs()
+		default:
+			g.sb.WriteString("...")
+			if g.r.Chance(1, 2) {
+				g.sb.WriteString(" on " + g.name())
+			}
+			g.dirs()
+			if depth > 1 {
+				g.selSet(depth - 1)
+			} else {
+				g.sb.WriteString(" { " + g.name() + " }")
+			}
+		}
+	}
+	g.sb.WriteString(" }")
+}
+
+func c19DeepDoc(r *rng.R) string {
+	g := &c19Tree{r: r}
+	for n := 1 + r.Intn(2); n > 0; n-- {
+		switch r.Intn(3) {
+		case 0:
+			g.selSet(4 + r.Intn(4))
+		case 1:
+			g.sb.WriteString(rng.Pick(r, []string{"query", "mutation", "subscription"}) + " " + g.name())
+			g.dirs()
+			g.selSet(4 + r.Intn(4))
+		default:
+			nm := g.name()
+			if nm == "on" {
+				nm = "On"
+			}
+			g.sb.WriteString("fragment " + nm + " on " + g.name())
+			g.dirs()
+			g.selSet(4 + r.Intn(4))
+		}
+		g.sb.WriteByte(' ')
+	}
+	return g.sb.String()
 }
 
 // a fragment DAG whose validated encoding doubles at every level: F0 { ...F1 ...F1 }, F1 { ...F2 ...F2 }, …
@@ -272,7 +792,7 @@ func c19Doubling(n int) string {
 }
 
 func checkC19(c *Ctx) {
-	s := &c19State{c: c, findings: map[string]*c19Finding{}, losses: map[string]int{}}
+	s := newC19State(c)
 
 	// 0. strings: escaping and the UTF-8 coercion
 	{
@@ -308,10 +828,15 @@ func checkC19(c *Ctx) {
 		c.Ev.Count("string_cases", len(ins))
 	}
 
-	// 1. unvalidated documents
+	// 1. the comparison of selection kinds is alive
+	s.detectorAlive()
+
+	// 2. parsed documents
 	qs, _ := RepoGraphQLInputs()
 	s.batch(qs)
 	s.batch(c19Minimal)
+	matrix := c19KindMatrix()
+	s.batch(matrix)
 	corpus := len(qs) + len(c19Minimal)
 	total := c.Pick(6000, 120000)
 	if v := os.Getenv("VERIF_C19_DOCS"); v != "" {
@@ -322,25 +847,74 @@ func checkC19(c *Ctx) {
 	for i := 0; i < 24; i++ {
 		schemas = append(schemas, gen.GenSchema(c.R.Fork(uint64(1000+i)), i%12))
 	}
+	genKinds := map[string]int{}
 	for done := 0; done < total; done += batch {
 		var texts []string
 		for i := 0; i < batch; i++ {
 			r := c.R.Fork(uint64(7_000_000 + done + i))
 			sc := schemas[(done+i)%len(schemas)]
-			switch i % 4 {
+			switch i % 5 {
 			case 0, 1:
 				texts = append(texts, GenQueryText(r, i%10 == 0, i%6 == 1, false))
+				genKinds["grammar-generator"]++
 			case 2:
 				texts = append(texts, gen.GenDoc(r, sc, 1+r.Intn(12)).Text)
+				genKinds["typed-generator"]++
+			case 3:
+				texts = append(texts, c19DeepDoc(r))
+				genKinds["deep-selection-trees"]++
 			default:
 				texts = append(texts, gen.GenBlindDocument(r, sc, 1+r.Intn(10)))
+				genKinds["type-blind-generator"]++
 			}
 		}
 		s.batch(texts)
 	}
 
-	// 2. validated documents (valid by construction, single-fault, type-blind)
-	vtotal := c.Pick(3000, 60000)
+	// 3. the decoder on JSON that json.Marshal does not write
+	{
+		var ins []c19JSON
+		for _, t := range c19HandJSON {
+			ins = append(ins, c19JSON{"hand-written document", t})
+		}
+		for _, t := range c19HandItems {
+			ins = append(ins, c19JSON{"hand-written selection items", selDoc(t)})
+			// the same items one level down, inside a field and inside an inline fragment
+			ins = append(ins, c19JSON{"hand-written selection items", selDoc(`{"Alias":"w","Name":"w","SelectionSet":[` + t + `]}`)})
+			ins = append(ins, c19JSON{"hand-written selection items", selDoc(`{"TypeCondition":"W","SelectionSet":[` + t + `]}`)})
+			ins = append(ins, c19JSON{"hand-written selection items", `{"Fragments":[{"Name":"F","SelectionSet":[` + t + `]}]}`})
+		}
+		s.decodeBatch(ins)
+		nmut := c.Pick(12000, 150000)
+		muts := map[string]int{}
+		ins = ins[:0]
+		for i := 0; i < nmut && len(s.jsonSample) > 0; i++ {
+			r := c.R.Fork(uint64(11_000_000 + i))
+			tree, err := impl.ParseJSONTree([]byte(s.jsonSample[i%len(s.jsonSample)]))
+			if err != nil {
+				continue
+			}
+			for k := 1 + r.Intn(3); k > 0; k-- {
+				muts[mutateJSON(r, tree)]++
+			}
+			var sb strings.Builder
+			tree.Text(&sb)
+			ins = append(ins, c19JSON{"mutated encoding", sb.String()})
+			if len(ins) == batch {
+				s.decodeBatch(ins)
+				ins = ins[:0]
+			}
+		}
+		s.decodeBatch(ins)
+		c.Ev.Extra["c19_decoder_inputs"] = map[string]any{
+			"inputs": s.decInputs, "by_origin": s.decKinds, "mutations_applied": muts,
+			"equal_trees": s.decEqual, "both_reject": s.decBothError,
+			"not_compared_model_says_unmodelled": s.decUnmodelled, "not_compared_outside_json_type": s.decOutside,
+		}
+	}
+
+	// 4. validated documents — outside the property's domain, informational
+	vtotal := c.Pick(1500, 30000)
 	for done := 0; done < vtotal; done += batch {
 		var pairs [][2]string
 		for i := 0; i < batch && done+i < vtotal; i++ {
@@ -358,12 +932,6 @@ func checkC19(c *Ctx) {
 		}
 		s.batchValidated(pairs)
 	}
-	// the repository's validation corpus
-	if seedPairs, _ := ValidateSeedPairs(); len(seedPairs) > 0 {
-		s.batchValidated(seedPairs)
-		corpus += len(seedPairs)
-	}
-	// adversarial: fragment cycles (linked by the walker although rejected) and doubling DAGs
 	const tinySchema = "type Query { a: Query b: Int }"
 	adv := [][2]string{
 		{tinySchema, "{ ...F } fragment F on Query { a { ...F } }"},
@@ -371,31 +939,76 @@ func checkC19(c *Ctx) {
 		{tinySchema, "{ a { ...F } } fragment F on Query { b }"},
 		{tinySchema, "query ($v: Int = 1) { a { b @include(if: true) } x: b @skip(if: false) ... on Query { b } }"},
 	}
-	maxDbl := c.Pick(15, 18)
-	for n := 1; n <= maxDbl; n++ {
+	for n := 1; n <= c.Pick(10, 13); n++ {
 		adv = append(adv, [2]string{tinySchema, c19Doubling(n)})
 	}
 	s.batchValidated(adv)
 
 	sigs, found := s.flush()
+	depth := map[string]int{}
+	for d, n := range s.depthHist {
+		depth[fmt.Sprintf("max_depth_%02d", d)] = n
+	}
 	c.Ev.Extra["c19"] = map[string]any{
-		"documents_tried": s.docs, "documents_parsed": s.parsed, "corpus_documents": corpus,
+		"documents_tried": s.docs, "documents_parsed": s.parsed, "corpus_documents": corpus, "kind_order_matrix_documents": len(matrix),
+		"generated_by": genKinds,
 		"with_fragment_spread": s.withSpread, "with_inline_fragment": s.withInline,
 		"model_encoding_equal_bytes": s.encEqual, "encoding_not_compared_comments": s.encSkippedComments,
-		"model_roundtrip_equal": s.rtEqual, "unvalidated_loss_free": s.lossFree,
-		"validated_documents": s.vdocs, "validated_valid": s.vValid, "validated_invalid": s.vInvalid, "validated_loss_free": s.vLossFree,
-		"validator_crashes_before_encoding_owned_by_C02": s.vValidatorCrashes,
-		"validated_max_json_bytes":                       s.maxJSON, "validated_max_json_over_text_ratio": s.maxRatio,
+		"model_roundtrip_equal": s.rtEqual, "loss_free": s.lossFree,
+		"utf8CleanB_true": s.wfTrue, "utf8CleanB_false": s.wfFalse, "sourceCleanB_true": s.srcTrue, "sourceCleanB_false": s.srcFalse,
 		"loss_classes": s.losses, "findings_cases": found,
 	}
-	c.Ev.Rule = "a case is one document (unvalidated: compared with the model and judged; validated: judged); distinct = distinct (schema, document) texts"
-	fmt.Printf("C19: documents tried=%d parsed=%d (spread %d, inline %d) model-encoding-equal=%d (comments skipped %d) model-roundtrip-equal=%d loss-free=%d\n",
-		s.docs, s.parsed, s.withSpread, s.withInline, s.encEqual, s.encSkippedComments, s.rtEqual, s.lossFree)
-	fmt.Printf("C19: validated documents=%d (valid %d, invalid %d) loss-free=%d max-json=%d bytes max json/text ratio=%d\n", s.vdocs, s.vValid, s.vInvalid, s.vLossFree, s.maxJSON, s.maxRatio)
+	c.Ev.Extra["c19_shape_coverage"] = map[string]any{
+		"documents_by_max_selection_depth": depth,
+		"documents_with": map[string]int{
+			"field_at_depth>=4": s.cov["fd>=4"], "spread_at_depth>=4": s.cov["sd>=4"], "inline_fragment_at_depth>=4": s.cov["id>=4"],
+			"field_at_depth>=6": s.cov["fd>=6"], "spread_at_depth>=6": s.cov["sd>=6"], "inline_fragment_at_depth>=6": s.cov["id>=6"],
+			"inline_fragment_without_type_condition": s.cov["notc"], "spread_with_directives": s.cov["sdir"], "inline_fragment_with_directives": s.cov["idir"],
+			"field_alias_equals_name": s.cov["aeq"], "field_alias_differs_from_name": s.cov["ane"],
+			"field_with_selection_set": s.cov["fsel"], "field_without_selection_set": s.cov["flf"],
+		},
+		"sibling_kind_pairs_seen_at_depth>=4_of_9":   len(s.bi4),
+		"sibling_kind_triples_seen_at_depth>=4_of_27": len(s.tri4),
+		"sibling_kind_triples_seen_at_depth>=4":       c19SortedKeys(s.tri4),
+		"note": "a parsed document never has an EMPTY selection set (the grammar requires one selection); absent (nil) sets come from leaf fields, " +
+			"and empty-vs-null-vs-absent SelectionSet values are exercised on the decoder by the hand-written JSON inputs",
+	}
+	c.Ev.Extra["c19_validated_informational"] = map[string]any{
+		"note":                "validated documents are outside the domain of C19; nothing here is a violation or a known finding",
+		"validated_documents": s.vdocs, "valid": s.vValid, "invalid": s.vInvalid, "loss_free": s.vLossFree,
+		"validator_crashes_before_encoding_owned_by_C02": s.vValidatorCrashes,
+		"max_json_bytes": s.maxJSON, "max_json_over_text_ratio": s.maxRatio,
+		"classes": s.vInfo, "smallest_example": s.vExample,
+	}
+	for k, n := range s.vInfo {
+		c.Ev.Count("validated_informational:"+k, n)
+	}
+	if len(s.tri4) < 27 || len(s.bi4) < 9 {
+		c.Report("runtime", "json-generator-coverage", fmt.Sprintf("only %d of 27 sibling-kind triples and %d of 9 pairs were exercised at depth >= 4", len(s.tri4), len(s.bi4)), map[string]any{"op": "coverage"})
+	}
+	c.Ev.Assume = append(c.Ev.Assume,
+		"theorem C19_roundtrip assumes utf8CleanB d (every string of the tree is well-formed UTF-8); C19_parsed_document_wellformed proves it for every parsed document from sourceCleanB inp (every token value of the lexer model is well-formed UTF-8); that sourceCleanB holds for every source text that is valid UTF-8 is tested on every source of this run (json-wf-assumption-fails), not proved",
+		"the theorems compose encoder and decoder on the JSON value; that json.Marshal writes exactly the text of that value and json.Unmarshal reads it back is tested (byte-equal encodings, equal decodings of the texts), not proved")
+	c.Ev.Rule = "a case is one parsed document (compared with the model and judged), one JSON decoder input (compared with the model) or one string; distinct = distinct texts"
+	fmt.Printf("C19: documents tried=%d parsed=%d (spread %d, inline %d) model-encoding-equal=%d (comments skipped %d) model-roundtrip-equal=%d loss-free=%d utf8CleanB true/false=%d/%d sourceCleanB true/false=%d/%d\n",
+		s.docs, s.parsed, s.withSpread, s.withInline, s.encEqual, s.encSkippedComments, s.rtEqual, s.lossFree, s.wfTrue, s.wfFalse, s.srcTrue, s.srcFalse)
+	fmt.Printf("C19: shape: depth>=4 field/spread/inline docs=%d/%d/%d, no-type-condition=%d, spread/inline with directives=%d/%d, alias =/≠ name=%d/%d, sibling triples at depth>=4: %d/27, pairs: %d/9\n",
+		s.cov["fd>=4"], s.cov["sd>=4"], s.cov["id>=4"], s.cov["notc"], s.cov["sdir"], s.cov["idir"], s.cov["aeq"], s.cov["ane"], len(s.tri4), len(s.bi4))
+	fmt.Printf("C19: decoder inputs=%d equal=%d both-reject=%d unmodelled=%d outside-json-type=%d\n", s.decInputs, s.decEqual, s.decBothError, s.decUnmodelled, s.decOutside)
+	fmt.Printf("C19: (informational, outside the property) validated documents=%d (valid %d, invalid %d) loss-free=%d max-json=%d bytes max json/text ratio=%d classes=%v\n",
+		s.vdocs, s.vValid, s.vInvalid, s.vLossFree, s.maxJSON, s.maxRatio, s.vInfo)
 	for _, k := range sigs {
 		fmt.Printf("    %-55s %d\n", k, found[k])
 	}
-	_ = rng.New
+}
+
+func c19SortedKeys(m map[string]bool) []string {
+	ks := make([]string, 0, len(m))
+	for k := range m {
+		ks = append(ks, k)
+	}
+	sort.Strings(ks)
+	return ks
 }
 
 // flush reports the smallest input per signature, in a stable order
@@ -417,18 +1030,21 @@ func (s *c19State) flush() ([]string, map[string]int) {
 func init() {
 	Checks["C19"] = checkC19
 	Replayers["C19"] = func(c *Ctx, rep map[string]any) {
-		s := &c19State{c: c, findings: map[string]*c19Finding{}, losses: map[string]int{}}
+		s := newC19State(c)
 		in, _ := rep["input_hex"].(string)
 		b, _ := impl.UnhexW(in)
-		if sh, ok := rep["schema_hex"].(string); ok {
-			sb, _ := impl.UnhexW(sh)
-			s.batchValidated([][2]string{{string(sb), string(b)}})
-		} else if op, _ := rep["op"].(string); op == "jsonstr" || op == "jsonsan" {
+		switch op, _ := rep["op"].(string); op {
+		case "jsonstr", "jsonsan":
 			g := impl.Call(op+"go", []string{in})
 			if m := c.Driver.Map([]string{op + " " + in})[0]; m != g {
 				c.Report("correspondence", "json-string-model-differs", fmt.Sprintf("go=%s model=%s", g, m), rep)
 			}
-		} else {
+		case "jsondec":
+			s.decodeBatch([]c19JSON{{"replay", string(b)}})
+		case "jsonrtlegacytop":
+			s.detectorAlive()
+		case "coverage":
+		default:
 			s.batch([]string{string(b)})
 		}
 		s.flush()
